@@ -160,6 +160,8 @@ def mutate(fs, rng, nops, hostile=0.15, ops=None, disks=None, maxblocks=5):
                 if any(x[0] == "hardlink" and x[1] == s2 for x in fs.entries[d].values()):
                     continue
                 e2 = fs.entries[d][s2]
+                if e2[0] == "file" and e[0] == "file" and len(e2[1]) == len(e[1]) and e2[2] == e[2] and e2[1] != e[1]:
+                    continue  # other bytes under an unchanged name, size and time-stamp: invisible by design, never generated
                 tmp = fs.path(d, b".swap_tmp_verif")
                 os.rename(fs.path(d, sub), tmp)
                 os.rename(fs.path(d, s2), fs.path(d, sub))
@@ -420,6 +422,12 @@ def damage_data_disk(arr, fs, rng, d, how, state):
                 for _ in range(rng.randint(1, 3)):
                     o = rng.randrange(len(e[1]))
                     did |= flip_bytes(fs.path(d, s), rng, o, rng.randint(1, 64), how == "flip", rng.choice(["bit", "byte", "block", "zero"]))
+                if how == "flip-newtime":
+                    # several flips can cancel out: a file that ends up with its synced bytes is not damaged, only re-timed,
+                    # and fix has no reason to touch it - put the time-stamp back so that "damage" means damage
+                    with open(fs.path(d, s), "rb") as fh:
+                        if fh.read() == e[1]:
+                            os.utime(fs.path(d, s), ns=(e[2], e[2]))
             except OSError:
                 pass
     elif how == "rmlinks":
